@@ -115,6 +115,11 @@ class G:
         elif roll < 0.20:
             # a first character that spreadsheets, shells or mark-up treat specially; for the program it is a letter like any other
             w = r.choice(['=', '+', '@', '(', '.', '_', '~', '*', '!', '$', '&', '<', '[', '%', '\\', '|', ';']) + w
+        elif roll < 0.225:
+            # what a YAML reader would take for a key separator or a comment, inside a name; sometimes with a quote or a backslash as well
+            w += r.choice([': ', ' #', ' # ', ' : ', ':  ']) + self.word(1, 4, 0)
+            if r.random() < 0.5:
+                w += r.choice([' "q"', '\\', ' \\n', '"', " 'q'"]) + self.word(1, 3, 0)
         return w
 
     def name(self, segments=None, unusual=0.25):
